@@ -34,3 +34,11 @@ prop("C11", ["contracts.c11_nmt"],
               "Network.send_message hands the frame to the bus (env/net.py)", "A5 heartbeat callbacks do not re-enter / raise"],
      not_decided=["that a wait wakes up in time (real time / threads)",
                   "the library's extra SLEEP/STANDBY commands 80/96 (not in CiA 301) are left unconstrained"])
+
+prop("C17", ["contracts.c10_network", "contracts.c11_nmt", "contracts.c17_periodic"],
+     ["SyncStart", "SyncStop", "SyncStopStart", "PdoStart", "PdoStartNoPeriod", "PdoStop", "PdoUpdate", "HeartbeatStart",
+      "HeartbeatOnWrite", "HeartbeatStateChange", "NodeGuarding", "TaskUpdate", "PdoStartSetUpdate", "Disconnect", "PeriodicInit", "SlaveSendCommand"],
+     assumed=["python-can cyclic task model (env/stubs.py TaskStub): a task transmits the payload snapshot taken at creation "
+              "(or at modify_data) with its period until stop(); `live` = started - stopped is ghost state derived from the event trace",
+              "Network.disconnect is proved for 2 nodes x 2 maps in all 16 running/idle configurations (enumerated, not for arbitrary counts)"],
+     not_decided=["real-time behaviour of the transmitting thread"])
